@@ -146,11 +146,15 @@ def main(argv):
         if k is not None:
             ext = k.get("extent")
             got = (f.get("detail") or {}).get("extent")
-            if ext is None or got is None or ext == got:
+            beh = k.get("behaviour")
+            gotb = (f.get("detail") or {}).get("behaviour")
+            same_ext = ext is None or got is None or ext == got
+            same_beh = beh is None or gotb is None or beh == gotb
+            if same_ext and same_beh:
                 knownhits.append((f, k))
                 continue
             f = dict(f)
-            f["msg"] += " [differs from the recorded known finding: extent %s, recorded %s]" % (got, ext)
+            f["msg"] += " [differs from the recorded known finding: extent %s (recorded %s), behaviour %s (recorded %s)]" % (got, ext, gotb, beh)
         viol.append(f)
     status = 0
     for f, k in knownhits:
@@ -199,6 +203,8 @@ def main(argv):
     os.makedirs(os.path.join(VERIF, "evidence"), exist_ok=True)
     with open(os.path.join(VERIF, "evidence", prop + ".json"), "w") as fh:
         json.dump(ev, fh, indent=1, default=str)
+    if status == 1:
+        return 1          # a definite violation outranks a checker error
     if res.errors:
         return 2
     if status == 0:
